@@ -49,7 +49,10 @@ func statSources() map[string][]statSource {
 		return func(c *Ctx, v ssa.Value) bool { return isFieldLoad(v, owner) }
 	}
 	return map[string][]statSource{
-		"Path":     {{what: "the relative path parameter", pred: func(c *Ctx, v ssa.Value) bool { p, ok := v.(*ssa.Parameter); return ok && c.P.ParamName(p) == "relpath" }}},
+		"Path": {{what: "the relative path parameter", pred: func(c *Ctx, v ssa.Value) bool {
+			p, ok := v.(*ssa.Parameter)
+			return ok && c.P.ParamName(p) == "relpath"
+		}}},
 		"Mode":     {{what: "fi.Mode()", pred: call("(io/fs.FileInfo).Mode")}},
 		"ModTime":  {{what: "fi.ModTime().UnixNano()", pred: call("(time.Time).UnixNano")}, {what: "fi.ModTime()", pred: call("(io/fs.FileInfo).ModTime")}},
 		"Size":     {{what: "fi.Size()", pred: call("(io/fs.FileInfo).Size")}},
@@ -249,7 +252,9 @@ func r01_2(c *Ctx, rule string) {
 	c.R.Floor(rule, "xattr set calls in rewriteMetadata", len(xs), 1)
 	for _, call := range xs {
 		a := call.Common().Args
-		ok := pathIsParam(call) && from(a[1], "types.Stat.Xattrs") && from(a[2], "types.Stat.Xattrs")
+		// the key may have been collected first (keys gathered from the map, then set one by one)
+		keyFrom := c.DerivesFrom(a[1], func(y ssa.Value) bool { return isFieldLoad(y, "types.Stat.Xattrs") }, 12)
+		ok := pathIsParam(call) && keyFrom && from(a[2], "types.Stat.Xattrs")
 		c.R.Check(ok, rule, c.siteName(call)+"/args", c.pos(call), "each (key, value) of stat.Xattrs is set on p", "the xattr set call does not take its key and value from stat.Xattrs")
 		c.R.Check(eng.InCycle(call.Block()), rule, c.siteName(call)+"/loop", c.pos(call), "inside the loop over stat.Xattrs", "the xattr set call is not inside a loop over stat.Xattrs")
 	}
@@ -280,9 +285,39 @@ func r01_3(c *Ctx, rule string) {
 	}
 	c.R.Floor(rule, "creation calls in HandleChange", n, 5)
 	// rename is checked, and reached only when Lstat found an old entry
+	sameSet := func(a, b ssa.Value) bool {
+		ra, rb := eng.ResolveAll(a), eng.ResolveAll(b)
+		if len(ra) == 0 || len(ra) != len(rb) {
+			return false
+		}
+		for _, x := range ra {
+			found := false
+			for _, y := range rb {
+				if eng.SameValue(x, y) {
+					found = true
+				}
+			}
+			if !found {
+				return false
+			}
+		}
+		return true
+	}
 	for _, call := range c.P.CallsTo(hc, "fsutil.renameFile") {
 		c.ObErrChecked(rule+"/checked", call)
 		a := call.Common().Args
+		// what is renamed is what was created: every creation call makes its
+		// entry at the path that is moved into place (the temporary name when
+		// an old entry is being replaced), not at the destination itself
+		for _, cr := range c.P.CallsTo(hc, hcCreates...) {
+			ca := cr.Common().Args
+			idx := 0
+			if n := c.P.CalleeName(cr); n == "os.Symlink" || n == "os.Link" {
+				idx = 1
+			}
+			c.R.Check(idx < len(ca) && sameSet(ca[idx], a[0]), rule, c.siteName(cr)+"/created-at-renamed-path", c.pos(cr), "created at the path that is then renamed into place",
+				"the entry is not created at the path that is renamed into place: with an old entry in the way it is created over (or fails on) the destination itself and the temporary name that gets renamed does not exist")
+		}
 		c.R.Check(c.DerivesFrom(a[1], func(v ssa.Value) bool { return isFieldLoad(v, "fsutil.DiskWriter.dest") }, 5), rule, c.siteName(call)+"/target", c.pos(call), "renamed onto the destination path", "the temporary entry is not renamed onto the destination path")
 	}
 }
@@ -446,7 +481,7 @@ func r01_5(c *Ctx, rule string) {
 	for _, call := range c.P.CallsTo(lit, "fsutil.(*DiskWriter).processChange") {
 		w := call.Common().Args[len(call.Common().Args)-1]
 		al, _ := eng.Strip(w).(*ssa.Alloc)
-		ok := al != nil && strings.HasSuffix(types.TypeString(al.Type(), nil), "fsutil.lazyFileWriter")
+		ok := al != nil && strings.HasSuffix(eng.TypeStr(al.Type()), "fsutil.lazyFileWriter")
 		c.R.Check(ok, rule, c.siteName(call)+"/writer", c.pos(call), "content goes through a lazyFileWriter", "the asynchronous content is not written through a lazyFileWriter on the destination")
 	}
 	_ = raf
